@@ -132,6 +132,12 @@ TYPES = [
     record("D3", [F("x", P("int32"), default="5"), F("tags", A(P("string")), default='["t"]'), F("o", P("string"), True)]),
     record("D2", [F("deep", R("D3")), F("k", P("int32"), default="2")]),
     record("D1", [F("rRec", R("D2")), F("j", P("int32"), default="1")]),
+    # ... and the same chain with a middle record that declares NO default of its own (G2): the defaults of G3 are two levels down
+    record("G3", [F("x", P("int32"), default="5"), F("o", P("string"), True)]),
+    record("G2", [F("deep", R("G3"))]),
+    record("G1", [F("mid", R("G2")), F("j", P("int32"), default="1")]),
+    # a record with NO required field of its own whose optional members hold records that have required fields
+    record("ONest", [F("oi", R("Inner"), True), F("al", A(R("Inner")), True), F("mi", M(R("Inner")), True), F("n", P("int32"), True)]),
     # records with includes and NO own fields (and a record including such a record)
     record("Alias", [], includes=["IBase"]),
     record("Alias2", [F("q", P("int32"), True)], includes=["Alias"]),
